@@ -398,3 +398,26 @@ pub fn property() -> Property {
         ],
     }
 }
+
+/// (materials, shader packages)
+pub fn seed_files(ctx: &Ctx, n: usize) -> (Vec<(String, Vec<u8>)>, Vec<(String, Vec<u8>)>) {
+    let ms = mtrl_strategy(ctx);
+    let ss = shpk_strategy(ctx);
+    let mut mtrls = vec![];
+    let mut shpks = vec![];
+    let mut k = 0u64;
+    while (mtrls.len() < n || shpks.len() < n) && k < 300 {
+        let m = draw_fixed(&ms, 0xC14_5EED + k);
+        let s = draw_fixed(&ss, 0xC14_E5ED + k);
+        k += 1;
+        let mb = encode_mtrl(&m);
+        if mtrls.len() < n && !m.textures.is_empty() && mb.len() < 6000 {
+            mtrls.push((format!("gen{}", mtrls.len()), mb));
+        }
+        let sb = encode_shpk(&s);
+        if shpks.len() < n && !s.nodes.is_empty() && sb.len() < 8000 {
+            shpks.push((format!("gen{}", shpks.len()), sb));
+        }
+    }
+    (mtrls, shpks)
+}
